@@ -360,7 +360,7 @@ SPLIT = {"obj_int": ["obj_int#01", "obj_int#2"], "arr_scalar": ["arr_scalar#01",
 
 
 def gen_conditions(module, factory, tier, seed, groups=("T1", "T2", "T3", "T4"), rate=None, rest=True, only=None, witness_rate=0.15,
-                   extra_params=None, tags_from_template=True, timeout_scale=1.0, pairs_quick=30, heavy_all_drafts=False, heavy_L=2, heavy_quick=True, t1_obj_small=False, always=()):
+                   extra_params=None, tags_from_template=True, timeout_scale=1.0, pairs_quick=30, heavy_all_drafts=False, heavy_L=2, heavy_quick=True, t1_obj_small=False, always=(), thorough_t3=0.35, pairs_thorough=120):
     """Standard cube-and-conquer enumeration of the template table for one property.
     rate: per-group sampling probability in the quick tier (seeded)."""
     import random
@@ -419,22 +419,25 @@ def gen_conditions(module, factory, tier, seed, groups=("T1", "T2", "T3", "T4"),
                             cond(t, d, "obj_int#01", timeout=600)
                         else:
                             cond(t, d, k, timeout=600)
-                else:
+                elif rng.random() < thorough_t3:
+                    # thorough: a seeded share of the nestings (sized so that the tier runs end to end in the build round), deeper bounds
                     if k in TWO_LEVEL:
-                        cond(t, d, k, L=2, N=2, N2=1, timeout=2400)
+                        cond(t, d, k, L=1, N=2, N2=1, timeout=2400)
+                    elif k == "obj_int":
+                        cond(t, d, "obj_int#01", timeout=1800)
+                        cond(t, d, "obj_int#2", L=1, timeout=2400)
                     else:
                         cond(t, d, k, timeout=1800)
     if "T4" in groups:
         pairs = pair_names()
-        if quick:
-            pairs = rng.sample(pairs, pairs_quick)
+        pairs = rng.sample(pairs, pairs_quick if quick else min(len(pairs), pairs_thorough))
         for a, b in pairs:
             ta, tb = BY_NAME[a], BY_NAME[b]
             if only is not None and not (only(ta) and only(tb)):
                 continue
             ds = [d for d in ta.drafts if d in tb.drafts]
-            if quick and ds:
-                ds = [rng.choice(ds)]
+            if ds:
+                ds = [rng.choice(ds)] if quick else rng.sample(ds, min(2, len(ds)))
             for d in ds:
                 if top_keys(a, d) & top_keys(b, d):
                     continue
